@@ -7,7 +7,7 @@ from .extract import extract_call, SharedSeq
 from .bmc import ThreadProg, System, BV
 
 LB = "socket::patterns::load_balancer::LoadBalancer"
-QUERIES = ["cover.waiter-returns", "sender-sleeps-although-a-peer-connected", "loop-bound-exceeded"]
+QUERIES = ["cover.waiter-returns", "sender-sleeps-although-a-peer-connected", "sender-sleeps-after-deactivate", "loop-bound-exceeded"]
 
 
 def _m(it, name):
@@ -39,7 +39,13 @@ def call_wait():
     return f
 
 
+def call_deactivate():
+    return lambda it, st: it.run_body(_m(it, "deactivate"), [st])
+
+
 def run_scenario(prog, cfg, timeout_ms=600000, only=None):
+    if cfg.get("mode") == "deactivate":
+        return run_deactivate(prog, cfg, timeout_ms, only)
     t0 = time.time()
     t_add = extract_call(prog, setup, call_add(), "add_connection", max_ops=6)
     t_wait = extract_call(prog, setup, call_wait(), "wait_for_connection", max_ops=cfg.get("wait_ops", 9))
@@ -80,6 +86,64 @@ def run_scenario(prog, cfg, timeout_ms=600000, only=None):
     q("sender-sleeps-although-a-peer-connected", z3.Or(bad) if bad else z3.BoolVal(False))
     trunc = []
     for s, cases in sysm.cases.items():
+        for ti, nd, ch, cond, upd, _ in cases:
+            if ch.leaf and ch.truncated:
+                trunc.append(cond)
+    q("loop-bound-exceeded", z3.Or(trunc) if trunc else z3.BoolVal(False))
+    res["wall_s"] = round(time.time() - t0, 2)
+    return res
+
+
+def run_deactivate(prog, cfg, timeout_ms, only):
+    """n senders parked in wait_for_connection (no peer ever connects), one task calls deactivate():
+    every sender must come back (with the closed error)"""
+    t0 = time.time()
+    n = cfg.get("waiters", 2)
+    t_deact = extract_call(prog, setup, call_deactivate(), "deactivate", max_ops=6)
+    t_wait = extract_call(prog, setup, call_wait(), "wait_for_connection", max_ops=cfg.get("wait_ops", 9))
+    world = t_wait.paths[0]["world"]
+    if "peers_len" not in world.atomics:
+        world.atomics.append("peers_len")
+        world.atomic_init["peers_len"] = 0
+    c = ThreadProg("closer", "worker")
+    c.add_call([t_deact])
+    threads = [c]
+    for i in range(n):
+        w = ThreadProg(f"sender{i}", "waiter")
+        w.add_call([t_wait])
+        threads.append(w)
+    K = cfg.get("K", 6 + 9 * n)
+    sysm = System(world, threads, K)
+    notif = world.notifies[0]
+    res = {"K": K, "threads": [t.name for t in threads], "nodes": sum(len(t.nodes) for t in threads), "queries": [],
+           "functions": sorted(t_deact.functions | t_wait.functions), "paths": {"deactivate": len(t_deact.paths), "wait_for_connection": len(t_wait.paths)}}
+    def q(name, bad, expect_unsat=True):
+        if only is not None and name != only:
+            return
+        r, m, dt = sysm.check(bad, timeout_ms)
+        e = {"name": name, "result": str(r), "solver_s": round(dt, 2), "expect": "unsat" if expect_unsat else "sat"}
+        if r == z3.sat:
+            e["schedule"] = sysm.schedule(m)
+        res["queries"].append(e)
+    q("cover.waiter-returns", z3.Or([z3.And([sysm.finished(i, s) for i in range(1, n + 1)]) for s in range(1, K + 1)]), expect_unsat=False)
+    bad = []
+    s = K            # final state: everybody else is done or parked; a parked sender stays parked forever
+    stt = sysm.st[s]
+    for wi in range(1, n + 1):
+        w = threads[wi]
+        for node in w.nodes:
+            if node.leaf or node.op is None:
+                continue
+            for guard, ch, _ in node.children:
+                if (not ch.leaf) and ch.op == "notify_await":
+                    arg = z3.substitute(ch.arg, *ch.names.values()) if (z3.is_expr(ch.arg) and ch.names) else ch.arg
+                    parked = z3.And(stt["node"][wi] == node.id, w.subst(guard, ch.names),
+                                    z3.Not(z3.Or(z3.UGT(stt["gen"][notif], BV(arg)), stt["permit"][notif] == 1)))
+                    bad.append(z3.And(sysm.finished(0, s), parked))
+    q("sender-sleeps-after-deactivate", z3.Or(bad) if bad else z3.BoolVal(False))
+    q("sender-sleeps-although-a-peer-connected", z3.BoolVal(False))
+    trunc = []
+    for s2, cases in sysm.cases.items():
         for ti, nd, ch, cond, upd, _ in cases:
             if ch.leaf and ch.truncated:
                 trunc.append(cond)
